@@ -176,9 +176,33 @@ sys.stderr.write('RESULT ' + json.dumps(out) + '\n')
                                ['compute(verbose=True) gives %s, compute(verbose=False) %s' % (out['True'], out['False'])])
 
 
+def verbose_sizes_stream(ctx):
+    """verbose=True shows progress in steps of 100 pixels: arrays with exactly 1, 99, 100, 101, 199, 200, 201, 300 pixels
+    above the threshold give the dendrogram verbose=False gives."""
+    rng = ctx.rng('c15-verbose-sizes')
+    for nkeep in [1, 2, 99, 100, 101, 199, 200, 201, 300] + ([] if ctx.quick else [400, 500, 1000]):
+        n = nkeep + rng.randint(0, 7)
+        vals = [rng.randint(1, 50) for _ in range(nkeep)] + [0] * (n - nkeep)
+        rng.shuffle(vals)
+        arr = np.array(vals, dtype=float)
+        try:
+            a = Dendrogram.compute(arr, min_value=0.5, verbose=False)
+            with contextlib.redirect_stdout(io.StringIO()):
+                b = Dendrogram.compute(arr, min_value=0.5, verbose=True)
+            same = observe(a, (n,)) == observe(b, (n,))
+            fails = [] if same else ['%d pixels above the threshold: verbose=True gives another dendrogram (%d vs %d structures)' % (nkeep, len(b), len(a))]
+        except Exception as e:
+            fails = ['raised %r' % (e,)]
+        ctx.count('verbose_sizes')
+        ctx.case_done(None, ('verbose-size', nkeep))
+        if fails:
+            ctx.oracle_failure({'stream': 'verbose sizes', 'pixels_above_threshold': nkeep, 'data': vals if n <= 120 else '(%d values)' % n}, fails)
+
+
 def explore(ctx):
     narrow_arithmetic_stream(ctx)
     foreign_stdout_case(ctx)
+    verbose_sizes_stream(ctx)
     from . import grid_common
     grid_common.reused_adjacency_stream(ctx, 100 if ctx.quick else 1000)
     rng = ctx.rng('c15')
